@@ -654,6 +654,7 @@ func (fv *FnV) doReturn(st *State, ins *ssa.Return) error {
 				return fmt.Errorf("%s: ensures %s: %v", fv.name, cl.Label, err)
 			}
 			fv.addPending(st, "E", cl.Label, cl.Props, t, "postcondition (at every return): "+cl.Text, fv.fn.Pos())
+			fv.pending["E."+cl.Label].cl = cl
 		}
 	}
 	// error propagation
